@@ -453,7 +453,16 @@ func checkC15(c *Ctx, r *Report) {
 					}
 				}
 			}
-			reach, _ := allReach(li, roots)
+			// building a fresh object of the shared type (a constructor call whose result is not yet published, e.g. the
+			// candidate copy an update is tried on) may run the construction-time writers on THAT object
+			reach, _ := allReachSkipping(li, roots, func(in ssa.Instruction) bool {
+				call, ok := asCall(in)
+				if !ok {
+					return false
+				}
+				n := calleeName(call)
+				return n == "reservoir/config.NewDefault"
+			})
 			for f := range reach {
 				for _, al := range allowed {
 					if fnKey(f) == al {
